@@ -303,11 +303,48 @@ def m_deref_id(it, callee, args):
     return args[0]
 
 
+def int_cmp(op, signed_types=("isize", "i64", "i32", "i16", "i8", "i128")):
+    def f(it, callee, args):
+        a, b = val(args[0]), val(args[1])
+        signed = any(("<" + t + " as") in callee for t in signed_types)
+        lt = (a < b) if signed else z3.ULT(a, b)
+        le = (a <= b) if signed else z3.ULE(a, b)
+        if op == "lt": return lt
+        if op == "le": return le
+        if op == "gt": return z3.Not(le)
+        if op == "ge": return z3.Not(lt)
+        if op == "eq": return a == b
+        if op == "ne": return a != b
+        i = it.choose([lt, a == b, z3.Not(le)])
+        o = Agg("enum", "Ordering", [], i)
+        return some(o) if op == "partial_cmp" else o
+    return f
+
+
+def m_int_minmax(which):
+    def f(it, callee, args):
+        a, b = val(args[0]), val(args[1])
+        c = z3.ULE(a, b)
+        return z3.If(c, a, b) if which == "min" else z3.If(c, b, a)
+    return f
+
+
 def R(p):
     return re.compile(p)
 
 
+INT = r"(usize|u64|u32|u16|u8|u128|isize|i64|i32|i16|i8|i128)"
 MODELS = [
+    (R(r"<" + INT + r" as Ord>::cmp$"), int_cmp("cmp")),
+    (R(r"<" + INT + r" as PartialOrd>::partial_cmp$"), int_cmp("partial_cmp")),
+    (R(r"<" + INT + r" as PartialOrd>::lt$"), int_cmp("lt")),
+    (R(r"<" + INT + r" as PartialOrd>::le$"), int_cmp("le")),
+    (R(r"<" + INT + r" as PartialOrd>::gt$"), int_cmp("gt")),
+    (R(r"<" + INT + r" as PartialOrd>::ge$"), int_cmp("ge")),
+    (R(r"<" + INT + r" as PartialEq>::eq$"), int_cmp("eq")),
+    (R(r"<" + INT + r" as PartialEq>::ne$"), int_cmp("ne")),
+    (R(r"<" + INT + r" as Ord>::min$|cmp::min::<" + INT + ">$"), m_int_minmax("min")),
+    (R(r"<" + INT + r" as Ord>::max$|cmp::max::<" + INT + ">$"), m_int_minmax("max")),
     (R(r"FromPrimitive>::from_(u64|i64|u32|usize|u8)$"), m_from_u),
     (R(r"<&?BigU?[iI]?nt as Shl<usize>>::shl$"), m_shl),
     (R(r"<&?Big(Ui|I)nt as Shr<usize>>::shr$"), m_shr),
